@@ -304,6 +304,13 @@ class NxMixedGraph:
         # Moralize (link parents of mentioned nodes)
         for u, v in iter_moral_links(self):
             rv.add_undirected_edge(u, v)
+        # In a mixed graph, nodes joined by a path of colliders through bidirected
+        # edges (e.g., a <-> c <-> b or a -> c <-> b) must be married, too
+        for district in self.districts():
+            if len(district) > 1:
+                clique = set(district) | self.get_markov_pillow(district)
+                for u, v in combinations(clique, 2):
+                    rv.add_undirected_edge(u, v)
         return rv
 
     def draw(
